@@ -30,4 +30,235 @@ Section Get.
       + apply (inv_plain g s t _ _ I Ht); [intros h; gsame_tac|reflexivity|]. cbn [local_b lpc]. lia.
       + rewrite finish_err. apply (inv_plain g s t _ _ I Ht); [intros h; gsame_tac|reflexivity|reflexivity].
   Qed.
+
+  Lemma step_G1C s t c j v c0 : Inv g s -> nth_error (ms_pool s) t = Some (TRun c (G1C j v)) ->
+    Inv g (fst (mstep g s t c0)).
+  Proof.
+    intros I Ht. pose proof (local_of s t _ I Ht) as L. cbn [local_b lpc] in L.
+    unfold mstep. rewrite Ht. cbv beta iota zeta.
+    set (h := child_h g c j) in *.
+    destruct (has_ent g s h I) as [cur Ev]; [apply child_h_lt; lia|].
+    rewrite Ev. destruct (e_dec v (c_n c)) as [v'|] eqn:Ed; [|cbn [isSome] in L; lia].
+    destruct (N.eqb_spec cur v) as [->|Hne]; cbn [fst].
+    - (* the decrement takes effect *)
+      destruct (e_dec_some _ _ _ Ed) as (Hm & Hle & ->). pose proof (c_n_pos c) as Hn.
+      pose proof (entv_rd s h v Ev) as Ec.
+      assert (Hh : h < nbf g (ms_frames s)) by (apply (ent_nz_lt g s h I); lia).
+      pose proof (counter_bound g wf s t _ h I Ht Hh ltac:(lia)) as Kb. pose proof (HF_lt_MARK g wf).
+      set (p' := if (c_order c <=? 6)%nat then G2L j 0 else G2R j 0 0).
+      change (Inv g (mk_ent s h (v - c_n c) t (TRun c p') (ms_held s))).
+      assert (Gp : gpc g c p' = gpend h (c_n c)) by (unfold p'; destruct (c_order c <=? 6)%nat; reflexivity).
+      apply (inv_counter g s t _ _ h v (v - c_n c) I Ht Ev Hh Hm); try lia;
+        try (intros; gsimp; rewrite Gp; gsimp; unfold inb; destr_if; lia).
+      + intros h' Hh'. constructor; intros; gsimp; rewrite Gp; gsimp; unfold inb; destr_if; lia.
+      + reflexivity.
+      + cbn [local_b]. unfold p'. pose proof (ROWS_pos g wf). fold h.
+        destruct (c_order c <=? 6)%nat eqn:E6; cbn [lpc]; fold h.
+        * rewrite E6. lia.
+        * assert (0 <? c_chunks g c = true); [|assert (0 <? c_nr c = true); [|lia]].
+          -- apply N.ltb_lt. unfold c_chunks. apply N.div_str_pos. split; [apply pow2_pos|].
+             unfold c_nr. rewrite (ROWS_pow2 g wf). apply pow2_le.
+             unfold small in L. destruct (Nat.ltb_spec (c_order c) (hord g)); lia.
+          -- apply N.ltb_lt. apply pow2_pos.
+    - (* the CAS failed: retry with the current value *)
+      destruct (e_dec cur (c_n c)) eqn:Ed2.
+      + apply (inv_plain g s t _ _ I Ht); [intros h'; gsame_tac|reflexivity|].
+        cbn [local_b lpc]. rewrite Ed2. cbn [isSome]. lia.
+      + unfold next_child. destruct (j + 1 <? THUGE) eqn:Ej.
+        * apply (inv_plain g s t _ _ I Ht); [intros h'; gsame_tac|reflexivity|]. cbn [local_b lpc]. lia.
+        * rewrite finish_err. apply (inv_plain g s t _ _ I Ht); [intros h'; gsame_tac|reflexivity|reflexivity].
+  Qed.
+
+  Lemma is_get_not_put c : is_get c = true -> is_put c = false. Proof. destruct c; cbn; congruence. Qed.
+
+  Lemma next_row_inv s t c j i x0 : Inv g s -> nth_error (ms_pool s) t = Some x0 ->
+    ghost_of g x0 = gpend (child_h g c j) (c_n c) ->
+    cwf g (ms_frames s) c && (is_get c && small g c && (c_order c <=? 6)%nat && (j <? THUGE) && (i <? ROWS)
+      && (child_h g c j <? nbf g (ms_frames s))) = true ->
+    Inv g (next_row g s t c j i).
+  Proof.
+    intros I Ht E L. unfold next_row. pose proof (ROWS_pos g wf).
+    assert (Hs : forall p', gpc g c p' = gpend (child_h g c j) (c_n c) -> forall h, gsame g s x0 (TRun c p') h).
+    { intros p' E' h. constructor; intros; unfold fr, tr, pend, trcount, needsC, hfr; cbn [ghost_of]; rewrite E, E'; lia. }
+    destruct (i + 1 <? ROWS) eqn:Ei.
+    - apply (inv_plain g s t _ _ I Ht); [apply Hs; reflexivity|reflexivity|]. cbn [local_b lpc]. lia.
+    - apply (inv_plain g s t _ _ I Ht); [apply Hs; reflexivity|reflexivity|]. cbn [local_b lpc]. lia.
+  Qed.
+
+  Lemma step_G2L s t c j i c0 : Inv g s -> nth_error (ms_pool s) t = Some (TRun c (G2L j i)) ->
+    Inv g (fst (mstep g s t c0)).
+  Proof.
+    intros I Ht. pose proof (local_of s t _ I Ht) as L. cbn [local_b lpc] in L.
+    unfold mstep. rewrite Ht. cbv beta iota zeta. pose proof (ROWS_pos g wf).
+    set (h := child_h g c j) in *. set (r := (i + c_start c mod ROWS) mod ROWS).
+    destruct (has_row g wf s h r I) as (e & Ev & He); [lia|apply N.mod_lt; lia|].
+    rewrite Ev. cbn [fst].
+    destruct (fza e (c_order c)) eqn:Ef.
+    - apply (inv_plain g s t _ _ I Ht); [intros h'; gsame_tac|reflexivity|].
+      cbn [local_b lpc]. rewrite Ef. cbn [isSome]. fold h. lia.
+    - apply (next_row_inv s t c j i _ I Ht); [reflexivity|fold h; lia].
+  Qed.
+
+  Lemma step_G2C s t c j i e c0 : Inv g s -> nth_error (ms_pool s) t = Some (TRun c (G2C j i e)) ->
+    Inv g (fst (mstep g s t c0)).
+  Proof.
+    intros I Ht. pose proof (local_of s t _ I Ht) as L. cbn [local_b lpc] in L.
+    unfold mstep. rewrite Ht. cbv beta iota zeta. pose proof (ROWS_pos g wf).
+    set (h := child_h g c j) in *. set (r := (i + c_start c mod ROWS) mod ROWS).
+    assert (Hr : r < ROWS) by (apply N.mod_lt; lia).
+    destruct (has_row g wf s h r I) as (cur & Ev & Hc); [lia|exact Hr|].
+    rewrite Ev. destruct (fza e (c_order c)) as [[v' off]|] eqn:Ef; [|cbn [isSome] in L; lia].
+    destruct (N.eqb_spec cur e) as [->|Hne]; cbn [fst].
+    - (* the block is taken *)
+      assert (Hk6 : (c_order c <= 6)%nat) by lia.
+      destruct (fza_some e (c_order c) v' off Hc Hk6 Ef) as (Hal & Hfit & Hfree & _ & _).
+      rewrite finish_get_row by (apply is_get_not_put; lia).
+      apply (inv_alloc_block g wf s t _ h r e v' off (c_order c) _ I Ht Ev); try lia.
+      + apply (fza_lt e (c_order c) v' off Hc Hk6 Ef).
+      + unfold small in L. destruct (Nat.ltb_spec (c_order c) (hord g)); lia.
+      + exact Hfit.
+      + exact Hal.
+      + intros i' _. apply (fza_testbit e (c_order c) v' off i' Hc Hk6 Ef).
+      + intros i' Hi'. apply (proj1 (block_free_spec e (c_order c) off) Hfree). unfold inb in Hi'. unfold pow2 in Hi'. lia.
+      + apply pending_gpend. reflexivity.
+    - destruct (fza cur (c_order c)) eqn:Ef2.
+      + apply (inv_plain g s t _ _ I Ht); [intros h'; gsame_tac|reflexivity|].
+        cbn [local_b lpc]. rewrite Ef2. cbn [isSome]. fold h. lia.
+      + apply (next_row_inv s t c j i _ I Ht); [reflexivity|fold h; lia].
+  Qed.
+
+  (* ----- multi-row search ----- *)
+  Definition next_chunk_pc (c : call) (j ch : N) : pc :=
+    if ch + 1 <? c_chunks g c then G2R j (ch + 1) 0 else G3L j.
+  Lemma next_chunk_eq s t c j ch : next_chunk g s t c j ch = goto s t c (next_chunk_pc c j ch).
+  Proof. unfold next_chunk, next_chunk_pc. destruct (ch + 1 <? c_chunks g c); reflexivity. Qed.
+  Lemma next_chunk_ghost c j ch : gpc g c (next_chunk_pc c j ch) = gpend (child_h g c j) (c_n c).
+  Proof. unfold next_chunk_pc. destruct (ch + 1 <? c_chunks g c); reflexivity. Qed.
+  Lemma next_chunk_local fr c j ch q :
+    cwf g fr c && lpc g fr c (G2R j ch q) = true -> local_b g fr (TRun c (next_chunk_pc c j ch)) = true.
+  Proof.
+    cbn [local_b lpc]. intros L. unfold next_chunk_pc. destruct (ch + 1 <? c_chunks g c) eqn:E; cbn [lpc]; [|lia].
+    assert (0 <? c_nr c = true) by (apply N.ltb_lt, pow2_pos). lia.
+  Qed.
+
+  Lemma lo_row_lt c ch q : (7 <= c_order c)%nat -> ch <? c_chunks g c = true -> q <? c_nr c = true -> ch * c_nr c + q < ROWS.
+  Proof. intros H7 Hch Hq. pose proof (chunk_fits g c ch (q + 1) H7 Hch ltac:(lia)). lia. Qed.
+
+  Lemma step_G2R s t c j ch q c0 : Inv g s -> nth_error (ms_pool s) t = Some (TRun c (G2R j ch q)) ->
+    Inv g (fst (mstep g s t c0)).
+  Proof.
+    intros I Ht. pose proof (local_of s t _ I Ht) as L. pose proof L as L0. cbn [local_b lpc] in L.
+    unfold mstep. rewrite Ht. cbv beta iota zeta.
+    set (h := child_h g c j) in *.
+    destruct (has_row g wf s h (ch * c_nr c + q) I) as (e & Ev & He); [lia|apply lo_row_lt; lia|].
+    rewrite Ev. cbn [fst].
+    destruct (e =? 0).
+    - destruct (q + 1 <? c_nr c) eqn:Eq.
+      + apply (inv_plain g s t _ _ I Ht); [intros h'; gsame_tac|reflexivity|]. cbn [local_b lpc]. fold h. lia.
+      + apply (inv_plain g s t _ _ I Ht); [intros h'; gsame_tac|reflexivity|]. cbn [local_b lpc]. fold h.
+        assert (0 <? c_nr c = true) by (apply N.ltb_lt, pow2_pos). lia.
+    - rewrite next_chunk_eq. apply (inv_plain g s t _ _ I Ht); [|reflexivity|apply (next_chunk_local _ c j ch q L0)].
+      intros h'. constructor; intros; unfold fr, tr, pend, trcount, needsC, hfr; cbn [ghost_of]; rewrite next_chunk_ghost; reflexivity || lia.
+  Qed.
+
+  Lemma step_G2W s t c j ch q c0 : Inv g s -> nth_error (ms_pool s) t = Some (TRun c (G2W j ch q)) ->
+    Inv g (fst (mstep g s t c0)).
+  Proof.
+    intros I Ht. pose proof (local_of s t _ I Ht) as L. pose proof L as L0. cbn [local_b lpc] in L.
+    unfold mstep. rewrite Ht. cbv beta iota zeta.
+    set (h := child_h g c j) in *. set (lo := ch * c_nr c).
+    assert (Hr : lo + q < ROWS) by (apply lo_row_lt; lia).
+    assert (Hh : h < nbf g (ms_frames s)) by lia.
+    destruct (has_row g wf s h (lo + q) I Hh Hr) as (cur & Ev & Hc).
+    rewrite Ev. destruct (N.eqb_spec cur 0) as [->|Hne]; cbn [fst].
+    - destruct (q + 1 <? c_nr c) eqn:Eq.
+      + (* one more row in transit *)
+        rewrite goto_row.
+        apply (inv_fill_row g s t _ _ h (lo + q) I Ht Ev Hh Hr); [|reflexivity|cbn [local_b lpc]; fold h; lia].
+        constructor; gsolve.
+      + (* the last row: the block is handed out *)
+        rewrite finish_get_row by (apply is_get_not_put; lia).
+        assert (Hk : (c_order c < hord g)%nat) by (unfold small in L; destruct (Nat.ltb_spec (c_order c) (hord g)); lia).
+        assert (Hn : pow2 (c_order c) = 64 * (q + 1)).
+        { rewrite (pow2_split 6 (c_order c)), pow2_6 by lia. unfold c_nr in *. lia. }
+        apply (inv_alloc_rows g wf s t _ h lo q (c_order c) _ I Ht Ev Hh Hr Hk Hn); [reflexivity|].
+        pose proof (needs_counter g s t _ h I Ht Hh ltac:(gsimp; rewrite N.eqb_refl; reflexivity)) as Hm.
+        pose proof (zero_bit_in_range g s h (lo + q) 63 I Hh Hr ltac:(lia) Hm) as Hin.
+        unfold bit in Hin. rewrite (rowv_rd s h _ 0 Ev), N.bits_0 in Hin. specialize (Hin eq_refl). unfold fidx in Hin.
+        unfold blk_ok. cbn [fst snd]. apply andb_true_iff. split; [apply N.eqb_eq|apply N.leb_le; lia].
+        pose proof (pow2_nz (c_order c)).
+        apply mod_add_aligned; [assumption|apply mod_mul_aligned; [assumption|apply HF_mod_pow2; lia]|].
+        unfold lo. replace (ch * c_nr c * 64) with (ch * pow2 (c_order c)) by (unfold c_nr in *; nia).
+        apply mod_mul_aligned; [assumption|apply N.mod_same; assumption].
+    - destruct (N.eqb_spec q 0) as [->|Hq].
+      + rewrite next_chunk_eq. apply (inv_plain g s t _ _ I Ht); [|reflexivity|apply (next_chunk_local _ c j ch 0 L0)].
+        intros h'. constructor; intros; unfold fr, tr, pend, trcount, needsC, hfr; cbn [ghost_of]; rewrite next_chunk_ghost;
+          gsimp; unfold inb; try lia; destr_if; lia.
+      + apply (inv_plain g s t _ _ I Ht); [intros h'; gsame_tac|reflexivity|]. cbn [local_b lpc]. fold h. lia.
+  Qed.
+
+  Lemma step_G2U s t c j ch q c0 : Inv g s -> nth_error (ms_pool s) t = Some (TRun c (G2U j ch q)) ->
+    Inv g (fst (mstep g s t c0)).
+  Proof.
+    intros I Ht. pose proof (local_of s t _ I Ht) as L. pose proof L as L0. cbn [local_b lpc] in L.
+    unfold mstep. rewrite Ht. cbv beta iota zeta.
+    set (h := child_h g c j) in *. set (lo := ch * c_nr c).
+    assert (Hr : lo + q < ROWS) by (apply lo_row_lt; lia).
+    assert (Hh : h < nbf g (ms_frames s)) by lia.
+    destruct (has_row g wf s h (lo + q) I Hh Hr) as (cur & Ev & Hc).
+    rewrite Ev.
+    set (p' := if q =? 0 then next_chunk_pc c j ch else G2U j ch (q - 1)).
+    destruct (inv_unfill_row g wf s t _ (TRun c p') h (lo + q) cur I Ht Ev Hh Hr) as [Hcur Hinv].
+    - unfold p'. subst h lo. destruct (N.eqb_spec q 0) as [->|Hq].
+      + constructor; intros; unfold fr, tr, pend, trcount, needsC, hfr; cbn [ghost_of]; rewrite next_chunk_ghost; gsimp;
+          rewrite ?N.eqb_refl; unfold inb; try reflexivity; try lia; destr_if; lia.
+      + constructor; gsolve.
+    - reflexivity.
+    - unfold p'. destruct (N.eqb_spec q 0) as [->|Hq]; [apply (next_chunk_local _ c j ch 0 L0)|].
+      cbn [local_b lpc]. fold h. lia.
+    - subst cur. rewrite N.eqb_refl. cbn [fst]. unfold p' in Hinv.
+      destruct (q =? 0); [rewrite next_chunk_eq|]; rewrite goto_row; exact Hinv.
+  Qed.
+
+  (* ----- undo of the decrement ----- *)
+  Lemma step_G3L s t c j c0 : Inv g s -> nth_error (ms_pool s) t = Some (TRun c (G3L j)) ->
+    Inv g (fst (mstep g s t c0)).
+  Proof.
+    intros I Ht. pose proof (local_of s t _ I Ht) as L. cbn [local_b lpc] in L.
+    unfold mstep. rewrite Ht. cbv beta iota zeta.
+    set (h := child_h g c j) in *.
+    destruct (has_ent g s h I) as [v Ev]; [apply child_h_lt; lia|].
+    rewrite Ev. cbn [fst].
+    destruct (inc_possible g wf s t _ h (c_n c) v I Ht ltac:(lia)) as (Ei & _); try exact Ev;
+      try (gsimp; fold h; rewrite N.eqb_refl; reflexivity).
+    rewrite Ei. apply (inv_plain g s t _ _ I Ht); [intros h'; gsame_tac|reflexivity|].
+    cbn [local_b lpc]. rewrite Ei. cbn [isSome]. fold h. lia.
+  Qed.
+
+  Lemma step_G3C s t c j v c0 : Inv g s -> nth_error (ms_pool s) t = Some (TRun c (G3C j v)) ->
+    Inv g (fst (mstep g s t c0)).
+  Proof.
+    intros I Ht. pose proof (local_of s t _ I Ht) as L. cbn [local_b lpc] in L.
+    unfold mstep. rewrite Ht. cbv beta iota zeta.
+    set (h := child_h g c j) in *.
+    destruct (has_ent g s h I) as [cur Ev]; [apply child_h_lt; lia|].
+    rewrite Ev. destruct (e_inc g v (c_n c)) as [v'|] eqn:Ed; [|cbn [isSome] in L; lia].
+    assert (Hh : h < nbf g (ms_frames s)) by lia.
+    destruct (inc_possible g wf s t _ h (c_n c) cur I Ht Hh) as (Ei & Hm & Hle); try exact Ev;
+      try (gsimp; fold h; rewrite N.eqb_refl; reflexivity).
+    destruct (N.eqb_spec cur v) as [->|Hne]; cbn [fst].
+    - rewrite Ei in Ed. inversion Ed; subst v'. pose proof (HF_lt_MARK g wf).
+      set (x' := if j + 1 <? THUGE then TRun c (G1L (j + 1)) else TIdle (Some (Err EMemory))).
+      assert (Hx : next_child g (wr_ent s h (v + c_n c)) t c j = mk_ent s h (v + c_n c) t x' (ms_held s)).
+      { unfold next_child, x'. destruct (j + 1 <? THUGE); [reflexivity|]. rewrite finish_err. reflexivity. }
+      rewrite Hx.
+      assert (Gx : ghost_of g x' = gh0) by (unfold x'; destruct (j + 1 <? THUGE); reflexivity).
+      apply (inv_counter g s t _ x' h v (v + c_n c) I Ht Ev Hh Hm); try lia;
+        try (intros; unfold fr, tr, pend, trcount, needsC, hfr; rewrite Gx; gsimp; fold h; unfold inb; rewrite ?N.eqb_refl; try lia; destr_if; lia).
+      + intros h' Hh'. constructor; intros; unfold fr, tr, pend, trcount, needsC, hfr; rewrite Gx; gsimp; fold h; unfold inb; try lia; destr_if; lia.
+      + unfold x'. destruct (j + 1 <? THUGE); reflexivity.
+      + unfold x'. destruct (j + 1 <? THUGE) eqn:Ej; [|reflexivity]. cbn [local_b lpc]. lia.
+    - rewrite Ei. apply (inv_plain g s t _ _ I Ht); [intros h'; gsame_tac|reflexivity|].
+      cbn [local_b lpc]. rewrite Ei. cbn [isSome]. fold h. lia.
+  Qed.
 End Get.
